@@ -751,12 +751,20 @@ func judgeRouteCaseFlame(w *core.W, c *routeCase, prop string) {
 	hit := -1
 	var seen map[string]string
 	nf := false
+	drift := ""
 	build := func(acc []accRoute) (*flamego.Flame, bool) {
 		f := flamego.NewWithLogger(io.Discard)
 		if len(c.Routes)%3 == 1 {
 			// built-in middleware in front (request logger, renderer): what the route's handler sees is the same
 			f.Use(flamego.Logger(), flamego.Renderer())
 			w.Count("flame-instances-with-built-in-middleware-in-front")
+		}
+		if len(c.Routes)%2 == 0 {
+			// an application middleware that looks at the bind parameters before it calls Next() and again afterwards:
+			// they are the request's for as long as the request is being served (whatever the route's handler left
+			// in the map is the handler's business)
+			f.Use(paramsWatch(&drift))
+			w.Count("flame-instances-with-a-middleware-reading-parameters-after-next")
 		}
 		f.NotFound(func() { nf = true })
 		for _, a := range acc {
@@ -847,6 +855,7 @@ func judgeRouteCaseFlame(w *core.W, c *routeCase, prop string) {
 			w.Count("unknown-method-requests")
 		}
 		hit, seen, nf = -1, nil, false
+		drift = ""
 		rec := httptest.NewRecorder()
 		req := &http.Request{Method: method, URL: &url.URL{Path: path}, Header: http.Header{}, RequestURI: path}
 		if c.RawPath {
@@ -873,12 +882,38 @@ func judgeRouteCaseFlame(w *core.W, c *routeCase, prop string) {
 			w.Violate("chain-count", c, fmt.Sprintf("ServeHTTP(%s %q): route handler ran=%v and not-found ran=%v", method, path, hit >= 0, nf))
 			return
 		}
+		if drift != "" {
+			w.Violate("params-after-next", c, fmt.Sprintf("ServeHTTP(%s %q): %s", method, path, drift))
+			return
+		}
 		obs := observed{found: hit >= 0, routeIdx: hit, params: seen, flame: true}
 		if obs.found {
 			obs.routeText = seen["route"]
 		}
 		if !compareDispatch(w, c, prop, m, path, best, all, obs, "(Flame.ServeHTTP "+method+")") {
 			return
+		}
+	}
+}
+
+// paramsWatch is an application middleware that looks at the bind parameters before it calls Next() and again
+// afterwards; what it finds changed or gone is left in *drift.
+func paramsWatch(drift *string) flamego.Handler {
+	return func(ctx flamego.Context) {
+		before := map[string]string{}
+		for k, v := range ctx.Params() {
+			before[k] = v
+		}
+		routeBefore := ctx.Param("route")
+		ctx.Next()
+		after := ctx.Params()
+		for k, v := range before {
+			if got, ok := after[k]; !ok || got != v {
+				*drift = fmt.Sprintf("bind parameter %q was %q before Next() and is %q (present=%v) after it", k, v, got, ok)
+			}
+		}
+		if got := ctx.Param("route"); got != routeBefore {
+			*drift = fmt.Sprintf("Param(\"route\") was %q before Next() and is %q after it", routeBefore, got)
 		}
 	}
 }
